@@ -184,7 +184,10 @@ def _api_main():
             res["shown"] = [[v.rule_code(), bool(v.warning), bool(getattr(v, "fixable", False)), isinstance(v, (SQLParseError, SQLTemplaterError))] for v in shown]
             res["fix_even_unparsable"] = bool(cfg.get("fix_even_unparsable"))
             # ground truth "file has a templating / parsing error": a lint with every suppression switched off
-            tcfg = FluffConfig.from_path(rel, overrides={"ignore": "", "warnings": "", "disable_noqa": True})
+            # (ignore=templating also changes how the jinja templater RENDERS undefined variables, so it is
+            # kept when configured: the truth has to be about the rendering the configured run really does)
+            keep = "templating" if "templating" in [x.strip() for x in str(cfg.get("ignore") or "").replace("[", "").replace("]", "").replace("'", "").split(",")] else ""
+            tcfg = FluffConfig.from_path(rel, overrides={"ignore": keep, "warnings": "", "disable_noqa": True})
             tl = Linter(config=tcfg).lint_string(sql, fname=rel, config=tcfg)
             res["truth_tmp_prs"] = sum(1 for v in tl.get_violations(filter_ignore=False, filter_warning=False) if isinstance(v, (SQLParseError, SQLTemplaterError)))
     except BaseException as e:
